@@ -9,15 +9,22 @@ U = 2 ** 33 + 12345          # one value unit: sums leave 32 bits quickly, exact
 KEYS = {'a': bytes.fromhex('02' + '11' * 32), 'b': bytes.fromhex('04' + '22' * 64), 'c': bytes.fromhex('03' + '33' * 32)}
 
 
+LONGPROG = bytes(range(40))
+
+
 def addr_of(name, coin='bitcoin'):
+    if name == 'b' and coin == 'bitcoin':
+        return btc.segwit_addr('bc', 16, LONGPROG)      # 74 characters: the longest address there is
     return btc.b58check(bytes([btc.COINS[coin]['ver']]) + btc.hash160(KEYS[name]))
 
 
-def spk_for(addr, salt):
+def spk_for(addr, salt, coin='litecoin'):
     """'a'/'b'/...: the same address through P2PKH and P2PK; 'none': scripts that carry no address"""
     if addr == 'none':
         return [b'\x6a' + btc.push(b'data%d' % salt), b'\x51' + btc.push(KEYS['a']) + b'\x51\xae', b'\x51', b''][salt % 4]
     key = KEYS[addr]
+    if addr == 'b' and coin == 'bitcoin':
+        return b'\x60\x28' + LONGPROG                      # OP_16 <40-byte program>
     return btc.p2pk(key) if salt % 2 else btc.p2pkh(btc.hash160(key))
 
 
@@ -46,7 +53,7 @@ def concretise(hist, unit=U, coin='bitcoin'):
         for n, x in enumerate(tx['ins']):
             ref = build(x['t']) if x['t'] in by_id else unknown(x['t'])
             ins.append({'txid': ref, 'idx': x['i'], 'sig': b'\x01' + bytes([n]), 'seq': 0xffffffff})
-        outs = [{'val': o['val'] * unit, 'spk': spk_for(o['addr'], i + k)} for k, o in enumerate(tx['outs'])]
+        outs = [{'val': o['val'] * unit, 'spk': spk_for(o['addr'], i + k, coin)} for k, o in enumerate(tx['outs'])]
         t = {'ver': 1, 'ins': ins, 'outs': outs, 'lock': i}
         txs[i] = t
         txids[i] = btc.txid(t)
